@@ -62,6 +62,9 @@ std::string ctxJson(const Oomd::ActionContext& c) {
       .done();
 }
 
+static std::atomic<bool> g_initFails{false};
+void setInitReportsFailure(bool on) { g_initFails.store(on); }
+
 namespace {
 using namespace Oomd;
 
@@ -97,7 +100,7 @@ class ScriptedPlugin : public Engine::BasePlugin {
                .raw("args", J::arr(kv)));
     initLog().emplace_back(id_, delay_ ? *delay_ : -1);
     lastNote() = note_;
-    return 0;
+    return g_initFails.load() ? 1 : 0;
   }
   void prerun(OomdContext&) override {
     if (g_concurrent.load()) return;
